@@ -212,7 +212,7 @@ func (fr *Frame) frameObligations(fc *FuncContract, entry, out *State, pos token
 		if strings.HasPrefix(m, "cells(") {
 			g := vc.parseType(m[6:len(m)-1], ctx.pkg)
 			set := map[string]bool{}
-			fr.typeCells(g.Go, set)
+			fr.typeCells(goTypeOf(g), set)
 			for _, k := range sortedKeys(set) {
 				declared[k] = true
 			}
